@@ -300,6 +300,11 @@ def decode_archive(workdir: str, kind: str):
 # ---------------------------------------------------------------------------------------------
 # helpers looking at the real objects
 
+BYSTANDERS = {ARCH_PREFIX + '_extra_dir.vpk': b'\x34\x12\xaa\x55' + b'neighbour directory', ARCH_PREFIX + '_extra_000.vpk': b'neighbour data 0',
+              ARCH_PREFIX + '_patch.vpk': b'\x34\x12\xaa\x55single-file neighbour', ARCH_PREFIX + 'x_dir.vpk': b'longer prefix', ARCH_PREFIX + '_000.bak': b'a backup',
+              'other_999.vpk': b'unrelated'}
+
+
 def vpk_path(workdir: str, kind: str) -> str:
     return os.path.join(workdir, ARCH_PREFIX + '_dir.vpk' if kind == 'dir' else ARCH_PREFIX + '.vpk')
 
@@ -417,6 +422,11 @@ class Runner:
         wd = self.workdir
         for fn in os.listdir(wd):
             os.remove(os.path.join(wd, fn))
+        # other archives live in the same folder; their names extend this archive's prefix (pak01 next to pak01_extra): no
+        # operation on this archive touches them
+        for fn, blob in BYSTANDERS.items():
+            with open(os.path.join(wd, fn), 'wb') as f:
+                f.write(blob)
         case = {'cfg': [kind, limit, ai], 'hist': [list(o) for o in hist]}
         self.ai_none = ai is None or any(len(o) > 5 and o[5] is None for o in hist)
         path = vpk_path(wd, kind)
@@ -546,6 +556,18 @@ class Runner:
         wd = self.workdir
         where = f'cfg={cfg} history={list(hist)}\n '
 
+        # (0) the neighbours
+        for fn, blob in BYSTANDERS.items():
+            try:
+                with open(os.path.join(wd, fn), 'rb') as f:
+                    now = f.read()
+            except OSError:
+                now = None
+            if now != blob:
+                acc.fail('unrelated_file_touched', case, where + f'the neighbouring file {fn} (another archive in the same folder) '
+                         f'{"has vanished" if now is None else "was modified"}', **self.sig(cfg, model))
+                break
+
         # (1) live handle against `mem`
         try:
             names = list(h.filenames())
@@ -600,6 +622,16 @@ class Runner:
                        'len': len(r), 'folders': sorted(set(r.folders()))}
                 want_alt = {'iter': sorted(disk), 'fileinfos': sorted(disk), 'len': len(disk),
                             'folders': sorted({split_name(nm)[0] for nm in disk})}
+                # per-extension listings partition the archive ('' is the extension of extension-less names; one nothing carries lists nothing)
+                for e in sorted({split_name(nm)[2] for nm in disk} | {'', 'nope'}):
+                    have = sorted(nm for nm in disk if split_name(nm)[2] == e)
+                    alt[f'fileinfos(ext={e!r})'] = sorted(f.filename for f in r.fileinfos(ext=e))
+                    want_alt[f'fileinfos(ext={e!r})'] = have
+                    alt[f'folders(ext={e!r})'] = sorted(r.folders(ext=e))
+                    want_alt[f'folders(ext={e!r})'] = sorted({split_name(nm)[0] for nm in have})
+                    if e:
+                        alt[f'filenames(ext={e!r})'] = sorted(r.filenames(ext=e))
+                        want_alt[f'filenames(ext={e!r})'] = have
                 if alt != want_alt:
                     bad_k = next(k2 for k2 in alt if alt[k2] != want_alt[k2])
                     acc.fail('listing_mismatch', case, where + f'reopened archive: {bad_k} gives {alt[bad_k]}, filenames() gives {sorted(listed)}',
